@@ -250,6 +250,38 @@ static void do_len(long L)
     free(m); free(c); free(want); free(o);
 }
 
+/* "any tags": every tag byte 0..255 (not only the four documented values) as first chunk, followed by a second chunk with every tag byte
+ * of a small alphabet and a plain third chunk, from a fresh state and from the counter value before the wrap; pusher against the model after
+ * every push (rekey exactly when bit TAG_REKEY is set or the counter wrapped), puller recovers all three and ends synchronised */
+static void do_tagbyte(long T)
+{
+    static const unsigned char second[] = { 0, 1, 2, 3, 4, 6, 0x80, 0x82, 0xfd, 0xff };
+    unsigned char hdr[24], c[3][64], want[64], o[32], tg; ull ol; int sc, u, i; char key[128];
+    for (sc = 0; sc < 2; sc++) for (u = 0; u < (int) sizeof second; u++) {
+        sstate s, p; mstate ms; unsigned char tags[3]; size_t ml[3] = { 5, 0, 9 }, al[3] = { 0, 3, 0 };
+        tags[0] = (unsigned char) T; tags[1] = second[u]; tags[2] = 0;
+        rng_fill = (unsigned char) (0x31 + sc);
+        crypto_secretstream_xchacha20poly1305_init_push(&s, hdr, KEY); crypto_secretstream_xchacha20poly1305_init_pull(&p, hdr, KEY);
+        ref_hchacha20(ms.k, hdr, KEY, NULL); memset(ms.nonce, 0, 12); ms.nonce[0] = 1; memcpy(ms.nonce + 4, hdr + 16, 8);
+        if (sc) { set_counter(s.nonce, 0xfffffffeu); set_counter(p.nonce, 0xfffffffeu); set_counter(ms.nonce, 0xfffffffeu); }
+        snprintf(key, sizeof key, "secretstream-tagbyte/start=%s/tags=%02x,%02x,00", sc ? "2^32-2" : "fresh", tags[0], tags[1]);
+        for (i = 0; i < 3; i++) {
+            crypto_secretstream_xchacha20poly1305_push(&s, c[i], &ol, MSG, ml[i], al[i] ? AD : NULL, al[i], tags[i]);
+            ref_secretstream_chunk(want, MSG, ml[i], AD, al[i], tags[i], ms.k, ms.nonce); n_eval++; n_nontriv++;
+            if (ol != ml[i] + 17 || memcmp(c[i], want, ml[i] + 17)) { vf_fail(key, "chunk %d differs from the documented construction", i); break; }
+            m_after_chunk(&ms, want + 1 + ml[i], tags[i]);
+            if (memcmp(s.k, ms.k, 32) || memcmp(s.nonce, ms.nonce, 12)) { vf_fail(key, "pusher state after chunk %d (tag 0x%02x) differs from the model (rekey iff tag & TAG_REKEY or counter wrap)", i, tags[i]); break; }
+        }
+        if (i < 3) continue;
+        for (i = 0; i < 3; i++) {
+            tg = 0xee; ol = 77;
+            if (crypto_secretstream_xchacha20poly1305_pull(&p, o, &ol, &tg, c[i], ml[i] + 17, al[i] ? AD : NULL, al[i]) != 0 || ol != ml[i] || tg != tags[i] || memcmp(o, MSG, ml[i])) { vf_fail(key, "pull of genuine chunk %d (tag 0x%02x) failed or returned a wrong message/tag", i, tags[i]); break; }
+            n_eval++; n_nontriv++;
+        }
+        if (i == 3 && memcmp(&p, &s, sizeof p)) vf_fail(key, "states not synchronised after three chunks");
+    }
+}
+
 static void fin(void)
 {
     vf_stat("states", n_states); vf_stat("transitions", n_trans); vf_stat("rejected_pulls_checked", n_fail_selfloops); vf_stat("accepted_pulls", n_succ);
@@ -269,6 +301,7 @@ int main(void)
     vf_stat("depth_bound", (unsigned long long) DEPTH);
     vf_parallel(16, 0, 11 * NROOT, do_root, fin);
     vf_parallel(16, 0, 301, do_len, fin);
+    vf_parallel(16, 0, 256, do_tagbyte, fin);
     vf_sample("start counter 2^32-2: P01.P21.L.L -> second chunk carries TAG_REKEY while the counter wraps; puller must follow");
     vf_sample("P00.P11.pull(skip-ahead) -> rejected, puller state bit-identical, then pull(next) accepted");
     vf_sample("RP.P00.pull(next,desynchronised) -> rejected: the puller did not rekey where the pusher did");
